@@ -72,6 +72,8 @@ class SimFile(object):
             if isinstance(data, str):
                 raise TypeError("a bytes-like object is required, not 'str'")
             raw = bytes(data)
+        if self._closed:
+            raise ValueError("I/O operation on closed file.")
         if data == b"" or data == "":
             return 0            # FileDestination's mode probe
         if self.dead:
@@ -103,6 +105,8 @@ class SimFile(object):
         return len(data)
 
     def flush(self):
+        if self._closed:
+            raise ValueError("I/O operation on closed file.")
         if self.dead:
             return
         self._yield("file.flush")
@@ -118,6 +122,10 @@ class SimFile(object):
 
     def close(self):
         self._closed = True
+
+    @property
+    def closed(self):
+        return self._closed
 
     # -- position (a regular file opened for appending; the unchanged library never asks)
     def seekable(self):
